@@ -1,5 +1,6 @@
 import FFVerif.Props.C19
 import FFVerif.Props.C19Engine
+import FFVerif.Props.C19Width
 import FFVerif.Pins.pinFID
 import FFVerif.Pins.pinSE
 import FFVerif.Pins.pinPDD
@@ -42,6 +43,24 @@ import FFVerif.Pins.pinUDD
 #print axioms FFVerif.C19.engine_cdd
 #print axioms FFVerif.C19.se_example_mask
 #print axioms FFVerif.C19.se_example
+#print axioms FFVerif.C19.cm_toggling_frame
+#print axioms FFVerif.C19.cm_finite_width_free
+#print axioms FFVerif.C19.cm_finite_width
+#print axioms FFVerif.C19.finite_width_tendsto
+#print axioms FFVerif.C19.finite_width_tendsto_se
+#print axioms FFVerif.C19.finite_width_tendsto_pdd
+#print axioms FFVerif.C19.finite_width_tendsto_cpmg
+#print axioms FFVerif.C19.finite_width_tendsto_udd
+#print axioms FFVerif.C19.sew_mask
+#print axioms FFVerif.C19.sew_coeffs
+#print axioms FFVerif.C19.se_width_example
+#print axioms FFVerif.C19.se_width_tendsto_example
+#print axioms FFVerif.C19.finite_width_mask_eventually
+#print axioms FFVerif.C19.finite_width_tendsto_strict
+#print axioms FFVerif.WidthAux.segProp_pi
+#print axioms FFVerif.WidthAux.propagators_width
+#print axioms FFVerif.WidthAux.SEW.finiteWidth
+#print axioms FFVerif.WidthAux.finiteWidth_free_dur
 #print axioms FFVerif.Pins.pinFID
 #print axioms FFVerif.Pins.pinSE
 #print axioms FFVerif.Pins.pinPDD
